@@ -136,7 +136,8 @@ type c06Scenario struct {
 	crlA      []faultAnswer
 	badURLs   bool   // certificate 0 names non-http / unparsable URLs before its http ones
 	badLast   bool   // with badURLs: the LAST responder / point of certificate 0 is the unusable one (or the only one)
-	cache     string // "", "discard", "strict"
+	cache     string // "", "discard", "strict", "memory" (a correct cache: hands back what was stored under exactly that key)
+	queryURLs bool   // the distribution points of a certificate differ only in their query string
 	precancel bool
 	once      sync.Once
 	w         *revWorld
@@ -154,6 +155,17 @@ func c06BadAt(list []string, variant, pos int) string {
 }
 
 func (s *c06Scenario) world(variant int) *revWorld {
+	if s.queryURLs {
+		s.once.Do(func() {
+			s.w = newRevWorldURLs(s.n, s.o, s.c, purposeCS, func(kind string, ci, j int) (string, bool) {
+				if kind == "crl" {
+					return crlQueryURL(ci, j), true
+				}
+				return "", false
+			})
+		})
+		return s.w
+	}
 	if !s.badURLs {
 		s.once.Do(func() { s.w = newRevWorld(s.n, s.o, s.c, purposeCS) })
 		return s.w
@@ -227,6 +239,9 @@ func c06Scenarios(tier mc.Tier) []mc.Scenario {
 		add(&c06Scenario{name: "one-cert-o0c2-cache-" + mode, n: 2, o: []int{0}, c: []int{2}, entry: "validatecontext", lazy: true, bound: -1, ocspA: redO, crlA: filterAnswers(redC, func(a faultAnswer) bool { return a.cancel == "" }), cache: mode})
 		add(&c06Scenario{name: "one-cert-o1c1-cache-" + mode, n: 2, o: []int{1}, c: []int{1}, entry: "validatecontext", lazy: true, bound: 2, ocspA: redO, crlA: redC, cache: mode})
 	}
+	// a correct cache and distribution points that differ only in their query string: what one point delivered never answers for another
+	add(&c06Scenario{name: "one-cert-o0c2-cache-memory-points-differing-in-the-query", n: 2, o: []int{0}, c: []int{2}, entry: "validatecontext", lazy: true, bound: -1, ocspA: redO, crlA: filterAnswers(redC, func(a faultAnswer) bool { return a.cancel == "" }), cache: "memory", queryURLs: true})
+	add(&c06Scenario{name: "one-cert-o0c3-cache-memory-points-differing-in-the-query", n: 2, o: []int{0}, c: []int{3}, entry: "validatecontext", lazy: true, bound: 2, ocspA: redO, crlA: filterAnswers(redC, func(a faultAnswer) bool { return a.cancel == "" }), cache: "memory", queryURLs: true})
 	// longer chains: bounded deviations from the genuine good answers, isolation between certificates
 	dev := 2
 	if tier == mc.Thorough {
@@ -345,7 +360,18 @@ func (s *c06Scenario) body(c *mc.Ctx) {
 	if err != nil {
 		panic(mc.HarnessError{Msg: err.Error()})
 	}
-	if s.cache != "" {
+	if s.cache == "memory" {
+		stored := map[string]*corecrl.Bundle{}
+		cache = &netsim.Cache{}
+		hf.Cache = cache
+		cache.OnGet = func(u string) (*corecrl.Bundle, error) {
+			if b, ok := stored[u]; ok {
+				return b, nil
+			}
+			return nil, corecrl.ErrCacheMiss
+		}
+		cache.OnSet = func(u string, b *corecrl.Bundle) error { stored[u] = b; return nil }
+	} else if s.cache != "" {
 		cache = &netsim.Cache{}
 		hf.Cache = cache
 		hf.DiscardCacheError = s.cache == "discard"
